@@ -151,10 +151,11 @@ check_version(JSON_Object *meta)
 		return -1;
 	}
 
-	int version = (int) json_number(version_val);
+	double version = json_number(version_val);
 
-	if (version != OVNI_METADATA_VERSION) {
-		err("metadata version mismatch %d (expected %d)",
+	/* The version is an integer: 3.5 is not version 3 */
+	if (version < OVNI_METADATA_VERSION || version > OVNI_METADATA_VERSION) {
+		err("metadata version mismatch %g (expected %d)",
 				version, OVNI_METADATA_VERSION);
 		return -1;
 	}
